@@ -595,10 +595,16 @@ class OwnAnalysis:
                 f = st.facts[l]
                 if lit.pol and f in ("NONNEG", "POS", "Z"):
                     return None
+            # `if (asprintf(&p, ..) < 0)`: the failure edge is the out-of-memory path, pruned like a NULL from malloc
+            l0 = lit.lhs.strip()
+            if rc == 0 and lit.pol and l0.k == "CallExpr" and l0.j.get("callee") in ("asprintf", "vasprintf"):
+                return None
             return st
         if lit.kind == "eq":
             a, b = render(lit.lhs), render(lit.rhs)
             if lit.rhs.const_value() == -1 and a in st.facts and st.facts[a] == "NONNEG" and lit.pol:
+                return None
+            if lit.rhs.const_value() == -1 and lit.pol and lit.lhs.strip().k == "CallExpr" and lit.lhs.strip().j.get("callee") in ("asprintf", "vasprintf"):
                 return None
             for var, other, on in ((a, b, lit.rhs), (b, a, lit.lhs)):
                 if var in self.err_vars:
